@@ -27,7 +27,9 @@ from concurrent.futures import ThreadPoolExecutor
 from vlib import core
 from vlib.core import MachineryError
 from vlib.iterlaws import (KINDS, GROUPS, ARRAY_GROUPS, VALUE_KINDS, FLAGS, CAP_BITS, CAP_ALL, ALL_ACTIONS, reset_event, ev,
-                           s2c_scripts, random_scripts, needs, flags_of)
+                           s2c_scripts, random_scripts, needs, flags_of, mixed_scripts, negstride_scripts, MIXED_OPS)
+
+FACT_KINDS = sorted(k for k in KINDS if KINDS[k]["idx"] is not None)      # the advisory negative-stride kind shares step_ptr's type
 
 HDIR = os.path.join(core.HARNESS, "iter")
 SRC = os.path.join(HDIR, "driver.cpp")
@@ -133,7 +135,7 @@ def observe_facts(ctx, tags):
             r, o = build_facts(ctx, only=KINDS[kind]["idx"], name="facts_" + kind)
             return kind, r, o
         with ThreadPoolExecutor(max_workers=core.NCPU) as ex:
-            for kind, r, o in ex.map(one, sorted(KINDS)):
+            for kind, r, o in ex.map(one, FACT_KINDS):
                 if r is None:
                     broken[kind] = o
                 else:
@@ -144,8 +146,8 @@ def observe_facts(ctx, tags):
     for r in rows:
         if "kind" in r:
             facts[r["kind"]] = r["facts"]
-    if set(facts) != set(KINDS):
-        raise MachineryError("facts.cpp and vlib/iterlaws.py disagree on the kinds: %s" % sorted(set(facts) ^ set(KINDS)))
+    if set(facts) != set(FACT_KINDS):
+        raise MachineryError("facts.cpp and vlib/iterlaws.py disagree on the kinds: %s" % sorted(set(facts) ^ set(FACT_KINDS)))
     tagres = {r["tagrow"]: r["ok"] for r in rows if "tagrow" in r}
     conv = {r["conv"]: r["it_to_cit"] for r in rows if "conv" in r}
     return facts, broken, tagres, conv
@@ -160,7 +162,7 @@ def types_stage(ctx):
         if kind in VALUE_KINDS:
             KINDS[kind]["std"] = bool(f["traits_bi"])
     findings = []      # (kind, fact, text)
-    for kind in sorted(KINDS):
+    for kind in FACT_KINDS:
         if kind in broken:
             findings.append((kind, "*", "iterator kind %s: the iterator type can no longer be instantiated / used in unevaluated "
                              "expressions: %s" % (kind, first_errors(broken[kind], 3))))
@@ -203,6 +205,8 @@ def algo_probe(ctx, g):
         if k["mut"] and (k["std"] or kind in VALUE_KINDS):
             cand.append((kind, "StdFill", "template void c12::algo_fill<%s, %s>(%s, %s, const elem_t&);" % (t, it, it, it)))
             cand.append((kind, "StdReverse", "template void c12::algo_reverse<%s, %s>(%s, %s);" % (t, it, it, it)))
+            cand.append((kind, "StdCopyWithin", "template %s c12::algo_copy_within<%s, %s>(%s, %s, %s);" % (it, t, it, it, it, it)))
+            cand.append((kind, "StdRotate", "template %s c12::algo_rotate<%s, %s>(%s, %s, %s);" % (it, t, it, it, it, it)))
             if k["ra"]:
                 cand.append((kind, "StdSort", "template void c12::algo_sort<%s, %s>(%s, %s);" % (t, it, it, it)))
     caps = {kind: CAP_ALL for kind in kinds}
@@ -537,6 +541,81 @@ def l2_stage(ctx, q):
             ctx.notes["l2_action_coverage"] = {k: v for k, v in r.get("coverage", {}).items() if k[0].isupper()}
 
 
+# ------------------------------------------------------------- round 3: advisory stages
+def advisory_stage(ctx, builds, failed, q):
+    """Behaviour the statement of C12 does not cover, bound the same way (recorded executions validated by TLC against L1)
+    but reported through ctx.drift (MODEL-DRIFT, exit status unchanged):
+      * mixed iterator / const_iterator expressions of the containers: const_iterator c = it (ToConst), it OP c in both operand
+        orders (MixedCmp); an expression that does not compile is reported once per kind;
+      * xstepping_iterator with a NEGATIVE stride (walks without the order comparisons; one directed probe per order comparison)."""
+    adir = ctx.sub("advisory")
+    items, stats = [], {"mixed_caps": {}, "executions": 0, "events": 0, "rejections": 0}
+    noconv = []
+    for kind in sorted(k for k in KINDS if KINDS[k]["twin"]):
+        g = KINDS[kind]["group"]
+        if ("gcc", g) in failed:
+            continue
+        b = builds[("gcc", g)]
+        sp, tp = os.path.join(adir, "caps-%s.script" % kind), os.path.join(adir, "caps-%s.ndjson" % kind)
+        write_script(sp, [reset_event(kind, 2, 1), ev("MixedCaps", 1)])
+        run_script(b["drv"], sp, tp, max_restarts=0)
+        tl = read_lines(tp)
+        caps = json.loads(tl[1]).get("res", {}) if len(tl) > 1 and tl[1].startswith('{"op":"MixedCaps"') else {}
+        stats["mixed_caps"][kind] = caps
+        if not caps.get("conv"):
+            noconv.append(ctype(kind))
+            continue
+        missing = [o for o in MIXED_OPS if not caps.get(o) and (KINDS[kind]["ra"] or o in ("eq", "ne"))]
+        if missing:
+            ctx.drift.append("ADVISORY (outside the C12 statement; [container.requirements.general]: either operand may be a const_iterator) "
+                             "%s: iterator OP const_iterator does not compile for %s" % (ctype(kind), missing))
+        items.append({"name": "mixed-" + kind, "group": g, "flavour": "gcc", "lines": mixed_scripts(kind, caps, 2 if q else 3), "what": "mixed"})
+    if noconv:
+        ctx.drift.append("ADVISORY (outside the C12 statement; container requirements, C++14 Table 96: X::iterator converts to X::const_iterator) "
+                         "the iterator does not convert to the container's const iterator type, so no mixed iterator/const_iterator "
+                         "expression exists: %s" % ", ".join(noconv))
+    g = KINDS["step_neg"]["group"]
+    if ("gcc", g) not in failed:
+        walks, probes = negstride_scripts(ctx.seed, q)
+        items.append({"name": "negstride-walks", "group": g, "flavour": "gcc", "lines": walks, "what": "negstride"})
+        for i, pr in enumerate(probes):
+            items.append({"name": "negstride-probe%d" % i, "group": g, "flavour": "gcc", "lines": pr, "what": "negorder"})
+
+    def one(item):
+        sp, tp = os.path.join(adir, item["name"] + ".script"), os.path.join(adir, item["name"] + ".ndjson")
+        write_script(sp, item["lines"])
+        item["trace"] = tp
+        item["run"] = run_script(builds[(item["flavour"], item["group"])]["drv"], sp, tp)
+        return item, validate_file(ctx, item)
+    with ThreadPoolExecutor(max_workers=core.NCPU) as ex:
+        results = list(ex.map(one, items))
+    order_dev, reported = [], 0
+    for item, (matched, rejs, unval) in results:
+        stats["executions"] += sum(1 for l in item["lines"] if l["op"] == "Reset")
+        stats["events"] += matched
+        stats["rejections"] += len(rejs)
+        for r in rejs:
+            evj = json.loads(r["event"])
+            if item["what"] == "negorder":
+                order_dev.append("%s%s" % (evj.get("op"), ":" + evj["a"]["how"] if "how" in evj.get("a", {}) else ""))
+                continue
+            if reported < 4:
+                lines = read_lines(r["item"]["trace"] if r["file"] == os.path.basename(r["item"]["trace"]) else os.path.join(adir, r["file"]))
+                exp = core.explain_event(ctx, "IterLawsTrace", "IterLawsTrace.cfg", lines, r["line"] - 1)
+                kind = signature(r)[0]
+                ctx.drift.append("ADVISORY (outside the C12 statement: %s) kind %s: %s ; spec expected: %s" % (
+                    "mixed iterator/const_iterator expression" if item["what"] == "mixed" else "xstepping_iterator with a negative step",
+                    kind, r["event"][:400], str(exp)[:400]))
+                reported += 1
+    if order_dev:
+        ctx.drift.append("ADVISORY (outside the C12 statement, which asks for a positive step) xstepping_iterator with a negative step: "
+                         "the order comparisons do not follow the traversal order (a < b is not b - a > 0): %s" % sorted(set(order_dev)))
+    ctx.cov["events_validated"] += stats["events"]
+    ctx.notes["advisory_stage"] = stats
+    ctx.log("advisory: %d executions (mixed iterator/const_iterator expressions of %d kinds, negative stride), %d events accepted, %d rejected executions"
+            % (stats["executions"], sum(1 for i in items if i["what"] == "mixed"), stats["events"], stats["rejections"]))
+
+
 # ------------------------------------------------------------- self-test
 def selftest(ctx):
     """./verif selftest C12: the machinery's own guarantees, on the clean tree.
@@ -732,7 +811,7 @@ def run(ctx):
     ctx.notes["s2c_transitions_enumerated"] = len(edges)
     ctx.notes["s2c_transitions_replayed"] = taken
     ctx.notes.update(gen_stats)
-    ctx.notes["iterator_kinds"] = sorted(k for k in KINDS if (k, "*") not in skip)
+    ctx.notes["iterator_kinds"] = sorted(k for k in KINDS if (k, "*") not in skip and not KINDS[k]["adv"])
     for kind in sorted(s2c):
         per_group[KINDS[kind]["group"]].extend(s2c[kind])
 
@@ -753,7 +832,7 @@ def run(ctx):
             scripts.append({"name": "g%02d-%02d" % (g, i), "group": g, "flavour": "gcc", "lines": ch})
     # thorough: the random walks (other seeds) on the clang++ -O2 build as well
     if clang_groups:
-        rs2 = random_scripts(ctx.seed, q, skip, kinds=[k for k in KINDS if KINDS[k]["group"] in clang_groups], salt="/clang", nexec=30)
+        rs2 = random_scripts(ctx.seed, q, skip, kinds=[k for k in KINDS if KINDS[k]["group"] in clang_groups and not KINDS[k]["adv"]], salt="/clang", nexec=30)
         for g in clang_groups:
             if ("clang", g) in failed or ("gcc", g) in failed:
                 continue
@@ -830,6 +909,13 @@ def run(ctx):
         ctx.log("%d rejected executions in %d trace files; confirming and explaining up to %d" % (len(rejs), len(set(r["item"]["name"] for r in rejs)), MAX_REPORT))
         report_rejections(ctx, rejs, findings, builds)
     ctx.log("validated %d events in %d traces (%d executions)" % (ctx.cov["events_validated"], len(scripts), ctx.cov["traces_validated_against_impl"]))
+
+    try:
+        advisory_stage(ctx, builds, failed, q)
+    except MachineryError as e:
+        # the advisory stages never decide the exit status: the verdicts found above must still be reported
+        ctx.drift.append("ADVISORY stage could not be completed on this tree (machinery): %s" % str(e)[:300])
+        ctx.notes["advisory_stage"] = {"failed": str(e)[:500]}
 
     if failed and not ctx.violations:
         (flavour, g), b = sorted(failed.items())[0]
